@@ -809,6 +809,7 @@ struct GMatch {
 	struct GMatch *prevgm;	/* older stack entry */
 	struct HMatch hm_next;	/* best match for following stack entry */
 	int count;		/* match nr in repeated seq */
+	bool minok;		/* earlier zero-length repeat stands for missing mandatory repeats */
 };
 
 /* top context */
@@ -970,6 +971,7 @@ static int match_group(struct ExecCtx *ctx, const struct Op *op, const char *str
 	if (gm && gm->owner == op) {
 		gthis.parent = gm->parent;
 		gthis.count = gm->count + 1;
+		gthis.minok = gm->minok || (gm->end == gm->start);
 	}
 	gm = &gthis;
 	push_gm(ctx, gm);
@@ -1013,8 +1015,11 @@ static int match_gend(struct ExecCtx *ctx, const struct Op *f_op, const char *st
 	/* tag as matched */
 	gm->end = str;
 
-	/* try more repeats, stop if count full or last match was zero-length */
-	if (gm->count + 1 < op->maxcnt && !zeromatch) {
+	/*
+	 * try more repeats, stop if count full or last match was zero-length,
+	 * except first zero-length one when mincnt is not reached: non-empty repeats may follow
+	 */
+	if (gm->count + 1 < op->maxcnt && (!zeromatch || (gm->count + 1 < op->mincnt && !gm->minok))) {
 		err = match_group(ctx, op, str, gm);
 		if (err == 0 && STRICT)
 			gotmatch = true;
@@ -1023,7 +1028,7 @@ static int match_gend(struct ExecCtx *ctx, const struct Op *f_op, const char *st
 	}
 
 	/* fail if not enough repeats */
-	if (!zeromatch && gm->count + 1 < op->mincnt)
+	if (!zeromatch && !gm->minok && gm->count + 1 < op->mincnt)
 		return err;
 
 	/* continue with parent branch */
